@@ -113,17 +113,75 @@ def claim (marks : Array UInt8) (bump pn : Nat) (tag : UInt8) (what : String) : 
   else if marks[pn]! != 0 then throw s!"{what}: page {pn} is already in use as kind {marks[pn]!} (1 node, 2 overflow, 3 free-list page, 4 free)"
   else pure (marks.set! pn tag)
 
+/-- claim every page of a list for the same role -/
+def claimAll (marks : Array UInt8) (bump : Nat) (tag : UInt8) (what : String) : List Nat → Except String (Array UInt8)
+  | [] => pure marks
+  | p :: ps => do
+    let mk ← claim marks bump p tag what
+    claimAll mk bump tag what ps
+
+/-- the pages of a free list: every free-list page (3), then the pages it lists (4), head first -/
 def claimFreeList (marks : Array UInt8) (bump : Nat) (fl : List (Nat × List Nat)) (what : String) : Except String (Array UInt8) :=
-  fl.foldlM (fun mk (pn, items) => do
-    let mk ← claim mk bump pn 3 (what ++ " free-list page")
-    items.foldlM (fun mk i => claim mk bump i 4 (what ++ " free page")) mk) marks
+  match fl with
+  | [] => pure marks
+  | (pn, items) :: rest => do
+    let mk ← claim marks bump pn 3 (what ++ " free-list page")
+    let mk ← claimAll mk bump 4 (what ++ " free page") items
+    claimFreeList mk bump rest what
 
 def countUnclaimed (marks : Array UInt8) (bump : Nat) : Nat :=
   (List.range bump).foldl (fun acc pn => if pn ≥ 1 && marks[pn]! == 0 then acc + 1 else acc) 0
 
+/-- every key number of leaf `pn` lies in `[lo, hi)` (`hi` = the next separator, if any) -/
+def keysInRange (pn lo : Nat) (hi : Option Nat) : List Nat → Except String Unit
+  | [] => pure ()
+  | k :: ks => do
+    if k < lo then throw s!"ln: leaf {pn} holds a key below its separator"
+    match hi with
+    | some h => if k ≥ h then throw s!"ln: leaf {pn} holds a key not below the next separator"
+    | none => pure ()
+    keysInRange pn lo hi ks
+
+/-- one leaf entry of the walk: an overflow cell's chain is resolved, its pages are claimed (2), the value hash checked;
+state = (marks of `ln`, overflow pages counted so far) -/
+def entryWalk (ln : ByteArray) (bump pn : Nat) (mk : Array UInt8) (ov : Nat) (e : LeafEntry) :
+    Except String (Array UInt8 × Nat) :=
+  if e.overflow then do
+    let (v, pages) ← readOverflowValue ln bump e.cell
+    let mk ← claimAll mk bump 2 "ln overflow page" pages
+    match decodeOverflowCell e.cell with
+    | some c =>
+      if c.valueHash != Blake3.hashAny v then throw s!"ln: overflow cell in leaf {pn} carries a value hash that is not the Blake3 hash of the chained value"
+      else pure (mk, ov + pages.length)
+    | none => throw "overflow: malformed cell"
+  else pure (mk, ov)
+
+def entriesWalk (ln : ByteArray) (bump pn : Nat) (mk : Array UInt8) (ov : Nat) : List LeafEntry → Except String (Array UInt8 × Nat)
+  | [] => pure (mk, ov)
+  | e :: es => do
+    let (mk, ov) ← entryWalk ln bump pn mk ov e
+    entriesWalk ln bump pn mk ov es
+
+/-- the leaves in separator order: claim the leaf page (1), decode it, keys strictly increasing and inside
+`[separator, next separator)`, then its entries; state = (marks of `ln`, keys, overflow pages) -/
+def leafWalk (ln : ByteArray) (bump : Nat) (mk : Array UInt8) (keys ov : Nat) : List (Nat × Nat) → Except String (Array UInt8 × Nat × Nat)
+  | [] => pure (mk, keys, ov)
+  | (lo, pn) :: rest => do
+    let mk ← claim mk bump pn 1 "ln leaf"
+    match pageOf ln pn with
+    | none => throw s!"ln: leaf page {pn} beyond the end of the file"
+    | some pg =>
+      let es ← decodeLeaf pg
+      let ks := es.map (fun e => keyNat e.key)
+      if !(strictlySorted ks) then throw s!"ln: keys of leaf {pn} are not strictly increasing"
+      keysInRange pn lo (rest.head?.map (·.1)) ks
+      let (mk, ov) ← entriesWalk ln bump pn mk ov es
+      leafWalk ln bump mk (keys + ks.length) ov rest
+
 /-- the detailed walk: page ownership, separator ranges, overflow chains, accounting; also returns the
 ownership marks of `ln` and `bbn` (0 unclaimed, 1 node, 2 overflow page, 3 free-list page, 4 free page),
-used by the placement monitor of C17 -/
+used by the placement monitor of C17.  (Written as structural recursions — `claimAll`, `claimFreeList`, `leafWalk`,
+`entriesWalk` — so that the frame property of `Store/Frame*.lean` can follow the walk.) -/
 def wfDetailM (img : Image) : Except String (Stats × Array UInt8 × Array UInt8) := do
   let m ← imageMeta img
   if m.lnBump * PAGE > img.ln.size then throw s!"ln: bump {m.lnBump} beyond the end of the file ({img.ln.size} bytes)"
@@ -131,48 +189,21 @@ def wfDetailM (img : Image) : Except String (Stats × Array UInt8 × Array UInt8
   -- free lists
   let lnFl ← freeListAll img.ln m.lnBump m.lnBump m.lnFreelistPn
   let bbnFl ← freeListAll img.bbn m.bbnBump m.bbnBump m.bbnFreelistPn
-  let mut lnMarks ← claimFreeList (Array.replicate m.lnBump 0) m.lnBump lnFl "ln"
-  let mut bbnMarks ← claimFreeList (Array.replicate m.bbnBump 0) m.bbnBump bbnFl "bbn"
+  let lnMarks ← claimFreeList (Array.replicate m.lnBump 0) m.lnBump lnFl "ln"
+  let bbnMarks ← claimFreeList (Array.replicate m.bbnBump 0) m.bbnBump bbnFl "bbn"
   -- branch nodes
   if !(allZero img.bbn 0 PAGE) then throw "bbn: reserved page 0 is not empty"
   if !(allZero img.ln 0 PAGE) then throw "ln: reserved page 0 is not empty"
   let brs ← liveBranches img.bbn m.bbnBump (mkMarks m.bbnBump (trackedOf bbnFl))
-  for (pn, _) in brs do
-    bbnMarks ← claim bbnMarks m.bbnBump pn 1 "bbn branch node"
+  let bbnMarks ← claimAll bbnMarks m.bbnBump 1 "bbn branch node" (brs.map (·.1))
   let seps := allSeps brs
   if !(strictlySorted (seps.map (·.1))) then throw "bbn: separators are not strictly increasing (within or across branch nodes)"
   match seps with
   | (s, _) :: _ => if s != 0 then throw "bbn: the first separator is not the zero key"
   | [] => pure ()
   -- leaves
-  let sepArr := seps.toArray
-  let mut keys := 0
-  let mut ovPages := 0
-  for i in [0:sepArr.size] do
-    let (lo, pn) := sepArr[i]!
-    lnMarks ← claim lnMarks m.lnBump pn 1 "ln leaf"
-    match pageOf img.ln pn with
-    | none => throw s!"ln: leaf page {pn} beyond the end of the file"
-    | some pg =>
-      let es ← decodeLeaf pg
-      let ks := es.map (fun e => keyNat e.key)
-      if !(strictlySorted ks) then throw s!"ln: keys of leaf {pn} are not strictly increasing"
-      for k in ks do
-        if k < lo then throw s!"ln: leaf {pn} holds a key below its separator"
-        if i + 1 < sepArr.size then
-          if k ≥ (sepArr[i + 1]!).1 then throw s!"ln: leaf {pn} holds a key not below the next separator"
-      keys := keys + ks.length
-      for e in es do
-        if e.overflow then
-          let (v, pages) ← readOverflowValue img.ln m.lnBump e.cell
-          for p in pages do
-            lnMarks ← claim lnMarks m.lnBump p 2 "ln overflow page"
-          ovPages := ovPages + pages.length
-          match decodeOverflowCell e.cell with
-          | some c =>
-            if c.valueHash != Blake3.hashAny v then throw s!"ln: overflow cell in leaf {pn} carries a value hash that is not the Blake3 hash of the chained value"
-          | none => throw "overflow: malformed cell"
-  pure (Stats.mk keys sepArr.size brs.length ovPages (trackedOf lnFl).length (trackedOf bbnFl).length
+  let (lnMarks, keys, ovPages) ← leafWalk img.ln m.lnBump lnMarks 0 0 seps
+  pure (Stats.mk keys seps.length brs.length ovPages (trackedOf lnFl).length (trackedOf bbnFl).length
     (countUnclaimed lnMarks m.lnBump) (countUnclaimed bbnMarks m.bbnBump), lnMarks, bbnMarks)
 
 /-- the detailed walk: page ownership, separator ranges, overflow chains, accounting -/
